@@ -1006,6 +1006,20 @@ void monitor_engine(const Run& run, Verdicts& v, vu::Result& res) {
     for (auto& e : run.w->h.ev) if (e.kind == Ev::assert_fired) { v.add("ENGINE", "assert:" + e.s.substr(0, 60), "BOOST_ASSERT fired: " + e.s); res.count("asserts"); }
 }
 
+// ------------------------------------------------------------------------------------------------ C17 (in situ)
+void mon_wire_wellformed(const Run& run, const Ix&, Verdicts& v, vu::Result& res) {
+    const History& h = run.w->h;
+    for (auto& k : h.cpkts) {
+        res.count("client_packets_decoded");
+        if (k.dec.status != ref::Status::ok) {
+            v.add("C17", "C17:wire:not-well-formed", "the client wrote bytes the independent decoder rejects (" + k.dec.error + "): " + vu::hex(k.raw, 48));
+            continue;
+        }
+        for (auto& is : k.dec.protocol_issues)
+            v.add("C17", "C17:wire:protocol-issue:" + std::string(ref::type_name(k.dec.pkt.type)), std::string(ref::type_name(k.dec.pkt.type)) + " on the wire is well formed but not allowed: " + is);
+    }
+}
+
 void monitor_ids_only(const Run& run, Verdicts& v, vu::Result& res) {
     Ix ix(run.w->h);
     mon_quota_and_ids(run, ix, v, res);
@@ -1026,6 +1040,7 @@ void monitor_all(const Run& run, Verdicts& v, vu::Result& res) {
     mon_connect(run, ix, v, res);
     mon_keepalive(run, ix, v, res);
     mon_capabilities(run, ix, v, res);
+    mon_wire_wellformed(run, ix, v, res);
 }
 
 }  // namespace sim
